@@ -558,12 +558,27 @@ class atom(boolean.AndRestriction):
 
         # Skip the (very common) case of one of us not having use deps:
         if self.use and other.use:
-            # Set of flags we do not have in common:
-            flags = set(self.use) ^ set(other.use)
-            for flag in flags:
-                # If this is unset and we also have the set version we fail:
-                if flag[0] == "-" and flag[1:] in flags:
-                    return False
+            # flag -> [(wanted state, state assumed if missing from IUSE)]
+            wanted = {}
+            for flag in set(self.use) | set(other.use):
+                if flag[-1] in "?=":
+                    # conditional on the parent's USE, nothing known here
+                    continue
+                enabled = flag[0] != "-"
+                name = flag.lstrip("-")
+                # a flag lacking a default is treated as disabled when missing
+                missing = False
+                if name[-1] == ")":
+                    missing = name[-2] == "+"
+                    name = name[:-3]
+                wanted.setdefault(name, []).append((enabled, missing))
+            for states in wanted.values():
+                if len({enabled for enabled, missing in states}) == 2:
+                    # One of us wants it on, the other off: no package with the
+                    # flag in IUSE matches both, and one without it only does
+                    # if the defaults make each of us see the wanted state.
+                    if not all(enabled == missing for enabled, missing in states):
+                        return False
 
         # Remaining thing to check is version restrictions. Get the
         # ones we can check without actual version comparisons out of
@@ -581,16 +596,32 @@ class atom(boolean.AndRestriction):
         # package-like object to pass to these functions (all that is
         # needed is a version and revision attr).
 
+        # glob matches stop at version component boundaries (=1* is not 10)
+        glob_match = restricts.version_glob_match
+
+        def matches(atom, pkg):
+            if atom.op == "=*":
+                return glob_match(atom.fullver, pkg.fullver)
+            return restricts.VersionMatch(atom.op, atom.version, atom.revision).match(
+                pkg
+            )
+
+        # If both of us match the version written in one of us we intersect
+        # (this also covers equal versions that are spelled differently):
+        for pkg in (self, other):
+            if matches(self, pkg) and matches(other, pkg):
+                return True
+
         # If one of us is an exact match we intersect if the other matches it:
         if self.op == "=":
             if other.op == "=*":
-                return self.fullver.startswith(other.fullver)
+                return glob_match(other.fullver, self.fullver)
             return restricts.VersionMatch(
                 other.op, other.version, other.revision
             ).match(self)
         if other.op == "=":
             if self.op == "=*":
-                return other.fullver.startswith(self.fullver)
+                return glob_match(self.fullver, other.fullver)
             return restricts.VersionMatch(self.op, self.version, self.revision).match(
                 other
             )
@@ -601,16 +632,21 @@ class atom(boolean.AndRestriction):
 
         # If we are both glob matches we match if one of us matches the other.
         if self.op == other.op == "=*":
-            return self.fullver.startswith(other.fullver) or other.fullver.startswith(
-                self.fullver
+            return glob_match(other.fullver, self.fullver) or glob_match(
+                self.fullver, other.fullver
             )
 
         # If one of us is a glob match and the other a ~ we match if the glob
-        # matches the ~ (ignoring a revision on the glob):
+        # matches the ~ version; a glob carrying a revision only matches that
+        # revision, so it has to be a revision of the ~ version:
         if self.op == "=*" and other.op == "~":
-            return other.fullver.startswith(self.version)
+            if self.revision:
+                return self.version == other.version
+            return glob_match(self.version, other.fullver)
         if other.op == "=*" and self.op == "~":
-            return self.fullver.startswith(other.version)
+            if other.revision:
+                return other.version == self.version
+            return glob_match(other.version, self.fullver)
 
         # If we get here at least one of us is a <, <=, > or >=:
         if self.op in ("<", "<=", ">", ">="):
@@ -623,11 +659,24 @@ class atom(boolean.AndRestriction):
             # we would have matched above). We intersect if we both
             # match the other's endpoint (just checking one endpoint
             # is not enough, it would give a false positive on <=2 vs >2)
-            return restricts.VersionMatch(
-                other.op, other.version, other.revision
-            ).match(ranged) and restricts.VersionMatch(
-                ranged.op, ranged.version, ranged.revision
-            ).match(other)
+            if not (
+                restricts.VersionMatch(other.op, other.version, other.revision).match(
+                    ranged
+                )
+                and restricts.VersionMatch(
+                    ranged.op, ranged.version, ranged.revision
+                ).match(other)
+            ):
+                return False
+            if "=" in ranged.op or "=" in other.op:
+                # an inclusive endpoint lies in both ranges
+                return True
+            # Both endpoints are excluded: something has to lie in between.
+            # The only versions with nothing between them are consecutive
+            # revisions of the same version (1-r1 and 1-r2; 1 is 1-r0).
+            if cpv.ver_cmp(ranged.version, None, other.version, None):
+                return True
+            return abs(int(ranged.revision or 0) - int(other.revision or 0)) > 1
 
         if other.op == "~":
             # Other definitely matches its own version. If ranged also
@@ -654,15 +703,21 @@ class atom(boolean.AndRestriction):
                 other
             ):
                 return True
+            # A glob carrying a revision matches nothing but its own fullver:
+            if other.revision:
+                return False
+
+            def covers(glob, ranged):
+                # ranged's version lies below the glob, or is the glob's own
+                # version spelled differently (1.0 and 1.00)
+                return glob_match(glob.version, ranged.fullver) or not cpv.ver_cmp(
+                    glob.version, None, ranged.version, None
+                )
+
             if "<" in ranged.op:
                 # Remaining cases where this intersects: there is a
                 # package smaller than ranged.fullver and
                 # other.fullver that they both match.
-
-                # If other.revision is not None or 0 then other does not match
-                # anything smaller than its own fullver:
-                if other.revision:
-                    return False
 
                 # If other.revision is None or 0 then we can always
                 # construct a package smaller than other.fullver by
@@ -672,7 +727,7 @@ class atom(boolean.AndRestriction):
                 # If and only if other also matches ranged then
                 # ranged will also match one of those smaller packages.
                 # XXX (I think, need to try harder to verify this.)
-                return ranged.fullver.startswith(other.version)
+                return covers(other, ranged)
             else:
                 # Remaining cases where this intersects: there is a
                 # package greater than ranged.fullver and
@@ -683,7 +738,7 @@ class atom(boolean.AndRestriction):
                 # If and only if other also matches ranged then
                 # ranged will match such a larger package
                 # XXX (I think, need to try harder to verify this.)
-                return ranged.fullver.startswith(other.version)
+                return covers(other, ranged)
 
         # Handled all possible ops.
         raise NotImplementedError(
